@@ -79,11 +79,10 @@ theorem storedValue_plain {v : String} (hv : isSecureBootVar v = false) (b : Byt
 
 /-- a signed update of a secure-boot variable is stored as its payload, descriptor removed -/
 theorem storedValue_signed {v : String} (hv : isSecureBootVar v = true) {desc payload : Bytes}
-    {d : AuthDesc} {db : Db} (ha : readAuth (desc ++ payload) = .ok (d, payload))
-    (hp : readDb payload = some db) : storedValue v (desc ++ payload) = payload := by
+    {d : AuthDesc} (ha : readAuth (desc ++ payload) = .ok (d, payload)) :
+    storedValue v (desc ++ payload) = payload := by
   unfold storedValue
   rw [if_pos hv, ha]
-  simp only [hp, encDb_of_readDb hp]
 
 /-- reading a variable that holds `b`, when `b` is acceptable for that variable -/
 theorem Store.read_of_get {s : Store} {v : String} {b : Bytes} (hg : s.get v = some b)
@@ -257,7 +256,7 @@ theorem Op.WF.stored_eq {op : Op} (h : op.WF) {v : String} (ht : op.target = som
     simp only [Op.target, Option.some.injEq] at ht
     subst ht
     obtain ⟨hv, ⟨a, ha⟩, ⟨db, hdb⟩⟩ := h
-    exact ⟨storedValue_signed hv ha hdb, fun _ => ⟨db, hdb⟩⟩
+    exact ⟨storedValue_signed hv ha, fun _ => ⟨db, hdb⟩⟩
   | read w => simp [Op.target] at ht
 
 /-- the register property with the weakest hypothesis: only the last write to `v` has to be well
